@@ -242,7 +242,19 @@ func parseStd(line string, err error) stdRes {
 
 func (a stdRes) isError() bool { return strings.HasPrefix(a.status, "#") }
 
-func sameStd(a, b stdRes) (bool, string) {
+// sameStd is the property's oracle. tokens: for token decoders (json, cbor) only the final
+// status and the consumed count are compared: how a long string or number is cut into a chain
+// of "continued" tokens legitimately follows the buffer boundaries.
+func sameStd(a, b stdRes, tokens bool) (bool, string) {
+	if tokens && a.crash == "" && b.crash == "" {
+		switch {
+		case a.status != b.status:
+			return false, "final status differs"
+		case !a.isError() && a.ri != b.ri:
+			return false, "consumed-byte count differs (final status is not an error)"
+		}
+		return true, ""
+	}
 	switch {
 	case a.crash != "" || b.crash != "":
 		if a.crash == b.crash {
@@ -271,9 +283,9 @@ func sectionD(r *hlib.Run) {
 		}
 	}
 	rng := r.Rand.Fork()
-	maxLen, perCodec, nEnc := 1300, 2, 2
+	maxLen, perCodec, nEnc, maxPoints := 900, 1, 1, 72
 	if r.Thorough {
-		maxLen, perCodec, nEnc = 6000, 8, 10
+		maxLen, perCodec, nEnc, maxPoints = 6000, 8, 10, 1 << 30
 	}
 	inputs := derived(rng, append(testDataInputs(r.Repo, maxLen, perCodec), encoderInputs(rng, nEnc)...))
 	codecsLine, _ := ds[cdrv.PlainGcc].Run("codecs")
@@ -310,19 +322,31 @@ func sectionD(r *hlib.Run) {
 				j.kinds = append(j.kinds, kind)
 			}
 			add("oneshot", "")
-			stride := 1
+			// every single split point (quick tier: every point of the first 32 bytes, where the
+			// headers are, then evenly spaced points; the sanitizer build samples)
+			points := maxPoints
 			if fl == cdrv.AsanUbsan {
-				stride = 1 + n/24
+				points = 16
 			}
-			for k := 1; k < n; k += stride {
-				add("src1", fmt.Sprintf("src=%d,%s ", k, big))
+			stride := 1
+			if n > points {
+				stride = (n + points - 1) / points
+			}
+			for k := 1; k < n; k++ {
+				if (k < 32 && fl == cdrv.PlainGcc) || k%stride == 0 {
+					add("src1", fmt.Sprintf("src=%d,%s ", k, big))
+				}
 			}
 			add("src-bytewise", "src=1 ")
 			if hasDst {
 				add("dst-bytewise", "dst=1 ")
 				add("both-bytewise", "src=1 dst=1 ")
 			}
-			for m := 0; m < 4; m++ {
+			nMulti := 4
+			if fl == cdrv.AsanUbsan && !r.Thorough {
+				nMulti = 2
+			}
+			for m := 0; m < nMulti; m++ {
 				var ss, dd []string
 				for i := 0; i < 40; i++ {
 					ss = append(ss, fmt.Sprint(rng.Range(1, 1+n/8)))
@@ -412,7 +436,7 @@ func sectionD(r *hlib.Run) {
 		one := j.res[0]
 		key := j.in.codec + "/" + j.in.name
 		if prev, ok := oneshot[key]; ok {
-			if same, why := sameStd(prev, one); !same {
+			if same, why := sameStd(prev, one, have[j.in.codec] == 'K'); !same {
 				r.Fail("flavour-mismatch:"+j.in.codec, "gcc -O2 and ASan/UBSan builds of std disagree on a one-shot run: "+why,
 					fmt.Sprintf("%s\n-> %s\n-> %s", j.cmds[0], prev.raw, one.raw))
 			}
@@ -438,7 +462,7 @@ func sectionD(r *hlib.Run) {
 			if rr.checks != "" {
 				r.Count("D:io-contract-flag")
 			}
-			if same, why := sameStd(one, rr); !same {
+			if same, why := sameStd(one, rr, have[j.in.codec] == 'K'); !same {
 				key := "split-dependent:" + j.in.codec + ":" + j.in.kind
 				if rr.crash != "" {
 					key = "crash:" + j.in.codec + ":" + rr.crash
